@@ -10,6 +10,11 @@ scores.  E1, two-level oracle so that nothing layout-dependent is assumed:
     documented formula applied to (stored weight rounded to float32, byte
     approximated field length, statistics re-derived from the corpus model),
     times the query boost; the same value under every layout.
+    BM25F PARAMETER GRID: additionally every combination of default B in
+    {0, 0.75, 1} x field-specific B (absent | s_B in {0, 0.4, 1} | given for
+    the other fields only) x K1 in {0, 1.2} - the boundary values 0 and 1 on
+    both levels, so that "not given", "given as 0" and "given for another
+    field" are all told apart - on both boost extremes and four layouts.
 
 (2) COMPOSITION LAW (all histories, incl. deletions).  For every query tree
     (depth <= 2, boosts, constant-score wrappers, multi-term expansions) over
@@ -197,6 +202,27 @@ WSPEC = {
     "function": ("function", {}),
     "final": ("final", {"inner": "bm25"}),
 }
+
+
+# BM25F parameter grid: default B x field-specific B x K1, boundary values
+# (0 = no length normalisation, 1 = full) on both levels.  "s" is the scorable
+# field the postings are taken from, "u" has no lengths (WeightScorer whatever
+# B says), "p" is never scored in the leaf law: a B given only for u/p must
+# leave s on the default B.
+GRID_B = (0.0, 0.75, 1.0)
+GRID_FIELDB = (("none", None), ("s0", {"s": 0.0, "u": 0.75}), ("s04", {"s": 0.4}),
+               ("s1", {"s": 1.0, "p": 0.0}), ("others", {"u": 0.0, "p": 1.0}))
+GRID_K1 = (1.2, 0.0)
+BM25_GRID = []
+for _B in GRID_B:
+    for _fn, _fb in GRID_FIELDB:
+        for _K1 in GRID_K1:
+            _name = "bm25g_B%s_%s_K%s" % (_B, _fn, _K1)
+            _p = {"B": _B, "K1": _K1}
+            if _fb is not None:
+                _p["fieldB"] = dict(_fb)
+            WSPEC[_name] = ("bm25", _p)
+            BM25_GRID.append(_name)
 
 
 def keyidx(searcher, docnum):
@@ -1331,6 +1357,14 @@ def run(ctx):
             for lay in leaf_layouts(6):
                 tasks.append(("leaf", 6, seed, cfg, lay, WEIGHTINGS[:7]))
                 tasks.append(("leaf", 6, seed, cfg, lay, WEIGHTINGS[7:]))
+    # BM25F parameter grid (default B x field-specific B x K1, see BM25_GRID)
+    grid_layouts = [{"segs": [D]}, {"segs": [2, D - 2]}, {"segs": [1] * D},
+                    {"segs": [1, D - 2, 1], "storage": "file", "blocklimit": 1}]
+    grid_cfgs = ("plain", "mixed") if quick else ("plain", "fieldboost", "docboost", "mixed")
+    for cfg in grid_cfgs:
+        for lay in (grid_layouts if quick else lls):
+            for j in range(0, len(BM25_GRID), 10):
+                tasks.append(("leaf", D, seed, cfg, lay, BM25_GRID[j:j + 10]))
     # ---- composition law ----------------------------------------------------
     plan = []   # (D, cfg, weighting, family, pathset, layout selector)
     W_MAIN = "bm25"
@@ -1430,12 +1464,20 @@ def run(ctx):
     if not quick:
         ctx.extra["composition_index_variants_D4_extended"] = len(comp_layouts(4, "thorough"))
     ctx.extra["weightings"] = WEIGHTINGS
+    ctx.extra["bm25f_parameter_grid"] = {"default_B": list(GRID_B), "K1": list(GRID_K1),
+                                         "field_B": dict((k, v) for k, v in GRID_FIELDB),
+                                         "configurations": len(BM25_GRID),
+                                         "boost_configurations": list(grid_cfgs),
+                                         "layouts": len(grid_layouts if quick else lls)}
     ctx.extra["tasks"] = len(tasks)
     ctx.rule = (
         "leaf law: every posting (term, document) of U(5) (fields s scorable, u unscorable) x query boost "
         "{1, 2.5, 0.5} x 13 weighting configurations x 4 boost configurations x every segment composition of 5 "
         "documents (+ optimised, file storage, loose files) x 6 access paths, against the documented formula on "
         "statistics re-derived from the documents, and against the single-segment index; "
+        "BM25F parameter grid (leaf law, same postings, boosts and paths): every combination of default B {0, 0.75, 1} x "
+        "field-specific B {absent, s_B=0 (+u_B), s_B=0.4, s_B=1 (+p_B), given for the fields u and p only} x K1 {1.2, 0} "
+        "= %d configurations x boost configurations %s x %d layouts; "
         "composition law: every query tree of the families leaf/two/three/boost/zero/const/opaque/nested/"
         "multiterm over U(4)/U(5) (all posting-list alignments for <=3 clauses, 6 representative masks for depth 2) "
         "x every segment composition + a deletion family x weighting x access path, against compose(leaf scores "
@@ -1443,11 +1485,15 @@ def run(ctx):
         "search(limit=None) is asked first and, when it already disagrees, the other access paths are not asked "
         "(counted as paths_masked_by_plain_search_failure); a query is counted non-trivial when it matches a "
         "document and, for composites, some matching document is matched by a proper subset of the leaves "
-        "(unaligned children); leaf-law postings all count; enumerated without repetition")
+        "(unaligned children); leaf-law postings all count; enumerated without repetition"
+        % (len(BM25_GRID), "/".join(grid_cfgs), len(grid_layouts if quick else lls)))
     ctx.assumptions = [
         "idf = log(N/(df+1))+1 with N = doc_count_all(); BM25F = idf*tf*(K1+1)/(tf+K1*(1-B+B*fl/avgfl)); "
         "TF_IDF = tf*idf; Frequency = tf; tf is the stored weight (frequency x field boost x document boost) as float32; "
         "fl = byte_to_length(length_to_byte(number of tokens)); avgfl = total tokens / N",
+        "BM25F(fieldname_B=x) ('set field-specific values for B'): the field is scored with B = x whatever x is (0 "
+        "included: no length normalisation), every other field with the default B; B and K1 range over [0, 1] and "
+        "[0, inf) as in the BM25 literature the docstring refers to (K1 = 0: the score is the idf)",
         "PL2 and DFree are documented only as 'from Terrier': whoosh.scoring.pl2/dfree (parameters documented "
         "one by one) are applied to statistics re-derived from the model on the boost-free corpus; with field/"
         "document boosts only agreement between access paths and layouts is demanded",
